@@ -7,7 +7,7 @@ use crate::functions::*;
 macro_rules! harness {
     ($name:ident, $body:expr) => {
         #[kani::proof]
-        #[kani::unwind(100)]
+        #[kani::unwind(5)]
         #[kani::stub(crate::parser::parse_value, no_parse_value)]
         #[kani::stub(crate::de::from_slice, no_from_slice)]
         #[kani::stub(std::ptr::drop_in_place, noop_drop)]
@@ -201,7 +201,7 @@ harness!(c13_sets_4, split1(2, |k| pdoc(8 + k, |a, b| inter_except(a, b))));
 //@ desc: vacuity twin: two arbitrary numbers claimed never to overlap — must be refuted
 //@ fns: array_overlap
 #[kani::proof]
-#[kani::unwind(100)]
+#[kani::unwind(5)]
 #[kani::stub(crate::parser::parse_value, no_parse_value)]
 #[kani::stub(crate::de::from_slice, no_from_slice)]
 #[kani::stub(std::ptr::drop_in_place, noop_drop)]
